@@ -151,7 +151,10 @@ pub fn replay_vbadir(args: &Args) -> i32 {
                 let r = v.get_module_raw(n).map_err(|e| e.to_string())?;
                 if r != &raw[..] { return Err(format!("raw content of {} differs (len {} vs {})", n, r.len(), raw.len())); }
                 let t = v.get_module(n).map_err(|e| e.to_string())?;
-                if t.as_bytes() != &raw[..] { return Err(format!("text of {} differs", n)); }
+                // the text is the raw content decoded with the project's code page
+                let enc = match cp { 1251 => encoding_rs::WINDOWS_1251, 932 => encoding_rs::SHIFT_JIS, _ => encoding_rs::WINDOWS_1252 };
+                let want_text = enc.decode_without_bom_handling(raw).0;
+                if t != want_text { return Err(format!("text of {} differs from its content decoded with code page {}", n, cp)); }
             }
             if v.get_module_raw("nope").is_ok() { return Err("unknown module found".into()); }
             let refs: Vec<String> = v.get_references().iter().map(|r| r.name.clone()).collect();
